@@ -5,6 +5,7 @@ CONSTANTS
   Esc = "escape"
   Header = "first"
   Merge = "skip"
+  Sep = "each"
   MaxSpecial = 1
   FullCells = 0
 INVARIANTS RoundTrip
